@@ -56,6 +56,11 @@ def run_processes(ctx, n, thorough):
         d = os.path.join(ctx.wd, 'p%d' % k)
         names = sorted(set(re.findall(r'^rule (\w+)', rules, re.M)))
         spec = [{'name': 'c', 'input': doc, 'expectations': {'rules': {nm: rng.choice(['PASS', 'FAIL', 'SKIP']) for nm in names if rng.random() < 0.8}}}]
+        if k % 5 == 0:
+            # several INVALID expectation strings at once (the error must name the same one every time), more than one test case
+            rules = ''.join('rule e%d {\n  a exists\n}\n' % i for i in range(8)) + rules
+            bad = ['PASSED', 'FAILED', 'SKIPPED', 'OK', 'pass', 'Fail', 'skip ', 'NONE']
+            spec = [{'name': 'c%d' % j, 'input': doc, 'expectations': {'rules': {('e%d' % i): bad[(i + j) % 8] for i in range(8)}}} for j in range(2)]
         e2e.write_files(d, {'r.guard': rules, 'd.json': json.dumps(doc, indent=rng.choice([None, 1])), 'tests/r_t.yaml': json.dumps(spec)})
         scen.append({'rules': rules, 'doc': doc})
         modes = VAL_MODES if thorough else ([VAL_MODES[0]] + rng.sample(VAL_MODES[1:], 4))
@@ -153,9 +158,14 @@ def run_history(ctx, n):
     flags = ['--structured', '-o', 'json', '-S', 'none']
     hand = 'rule is_prod when env exists { env == "prod" }\nrule tagged when is_prod { tags !empty }\nrule other {\n  not is_prod or\n  tagged\n}\n'
     hdocs = [{"env": "prod", "tags": ["a"]}, {"env": "dev"}, {"tags": []}, {"env": "prod", "tags": []}]
+    # many distinct regular expressions, strings and keys in one process: any per-process cache (compiled patterns,
+    # interned names) must not make a later file's report depend on the earlier ones
+    many = ''.join('rule re%03d {\n  name == /^n%03d$/ or\n  name == /v%03d/ or\n  other.k%03d !exists\n}\n' % (i, i % 150, i, i) for i in range(150))
+    mdocs = [{"name": "n007"}, {"name": "zzv120zz", "other": {"k003": 1}}, {"name": "n007"}, {"name": "n149"}, {"name": "n007"}]
+    hands = [(hand, hdocs), (hand, list(reversed(hdocs))), (many, mdocs)]
     for k in range(n):
-        if k < 2:
-            rules, docs = hand, (hdocs if k == 0 else list(reversed(hdocs)))
+        if k < len(hands):
+            rules, docs = hands[k]
         else:
             doc, prog = gen.gen_pair(rng, {'cycles': 0.0, 'types': False, 'functions': False})
             rules, docs = gen.render_file(prog), [doc, gen.gen_doc(rng), doc]
